@@ -49,7 +49,9 @@ class Chooser:
     ``expect`` (optional) = the parent's recorded points for the prefix: any mismatch is a Divergence.
     """
 
-    def __init__(self, prefix=(), expect=None):
+    def __init__(self, prefix=(), expect=None, max_points=600):
+        self.max_points = max_points
+        self.truncated = 0
         self.prefix = list(prefix)
         self.expect = expect
         self.taken: list[int] = []
@@ -61,6 +63,9 @@ class Chooser:
         if self.muted or n <= 1:
             return 0
         i = len(self.taken)
+        if i >= self.max_points:
+            self.truncated += 1  # coverage restriction, reported in the evidence: later points are not branched
+            return 0
         if i < len(self.prefix):
             c = self.prefix[i]
             if c >= n:
@@ -98,11 +103,15 @@ class VLoop(base_events.BaseEventLoop):
         self.stalled = False
         self.activity = 0  # bumped by the recorder: used by spin collapse and livelock detection
         self._last_sig = None
-        self._sig_repeat = 0
-        self._instant_t = 0.0
+        self._sig_counts: dict = {}
+        self._sig_activity = -1
+        self._instant_t = 0
+        self._epoch = 0
         self._instant_iters = 0
         self._instant_activity = 0
         self.collapsed = 0
+        self.spin_limit = 1500
+        self.spin_advances = 0
         self.harness_timers: set = set()
 
     # ---- clock -------------------------------------------------------------------------------------
@@ -165,12 +174,35 @@ class VLoop(base_events.BaseEventLoop):
         if self.iters > self.max_iters:
             raise Livelock(f'more than {self.max_iters} loop iterations')
         # livelock: many iterations at one virtual instant without harness-visible activity
-        if self._vtime - self._instant_t > 1e-6 or self.activity != self._instant_activity:
-            self._instant_t, self._instant_iters, self._instant_activity = self._vtime, 0, self.activity
+        if self._epoch != self._instant_t or self.activity != self._instant_activity:
+            self._instant_t, self._instant_iters, self._instant_activity = self._epoch, 0, self.activity
         else:
             self._instant_iters += 1
-            if self._instant_iters > 8000:
-                raise Livelock('more than 8000 loop iterations at one virtual instant without progress')
+            if self._instant_iters > self.spin_limit:
+                # a polling loop that never yields to time: on a real loop every iteration takes real time, so the
+                # next timer deadline eventually passes while it spins.  Let it pass (or report a livelock if there is none).
+                self.spin_advances += 1
+                if self.spin_advances > 400:
+                    raise Livelock('busy loop survives 400 timer expiries')
+                self._instant_iters = 0
+                ews = [] if self.stalled else self._live_envwaits()
+                if ews:
+                    # the loop never goes idle, yet the outside world still answers: oldest environment wait first (the default)
+                    self.sched_trace.append(('fire-spin', ews[0][0]))
+                    ews[0][1].set_result(None)
+                    self._epoch += 1
+                    self._instant_t = self._epoch
+                    return
+                self._cancelled_head()
+                if not self._scheduled:
+                    raise Livelock(f'more than {self.spin_limit} loop iterations at one virtual instant, no timer pending')
+                if self._scheduled[0]._when > self.horizon:
+                    raise Horizon(f'busy loop: next timer at {self._scheduled[0]._when:.3f} beyond horizon {self.horizon}')
+                if self._scheduled[0]._when > self._vtime:
+                    self._vtime = self._scheduled[0]._when
+                self._epoch += 1
+                self._instant_t = self._epoch
+                return
         mt = self.macro_target
         if mt is not None and (mt._cancelled or not mt._scheduled):
             self.macro_target = mt = None
@@ -181,12 +213,15 @@ class VLoop(base_events.BaseEventLoop):
                 if not ews or mt is not None or self.stalled or not self.busy_choices:
                     return
                 if self.spin_collapse:
-                    sig = (self._ready_signature(), tuple(w[0] for w in ews), self.activity)
-                    if sig == self._last_sig:
-                        self._sig_repeat += 1
-                    else:
-                        self._last_sig, self._sig_repeat = sig, 0
-                    if self._sig_repeat >= self.spin_collapse:
+                    # busy points with a ready-queue signature already seen spin_collapse times since the last
+                    # harness-visible activity offer no alternatives (polling loops: BaseEvent.__await__, queue polls)
+                    if self._sig_activity != self.activity:
+                        self._sig_activity = self.activity
+                        self._sig_counts = {}
+                    sig = (self._ready_signature(), tuple(w[0] for w in ews))
+                    n = self._sig_counts.get(sig, 0)
+                    self._sig_counts[sig] = n + 1
+                    if n >= self.spin_collapse:
                         self.collapsed += 1
                         return
                 c = self.chooser.choose('busy', 1 + len(ews), None)
@@ -250,12 +285,15 @@ class VLoop(base_events.BaseEventLoop):
             self._advance()
             return
 
-    def _advance(self):
-        """move the virtual clock to the next live timer deadline"""
+    def _cancelled_head(self):
         while self._scheduled and self._scheduled[0]._cancelled:
             self._timer_cancelled_count -= 1
             h = heapq.heappop(self._scheduled)
             h._scheduled = False
+
+    def _advance(self):
+        """move the virtual clock to the next live timer deadline"""
+        self._cancelled_head()
         if not self._scheduled:
             raise Deadlock('no timer left to advance to')
         when = self._scheduled[0]._when
@@ -263,3 +301,4 @@ class VLoop(base_events.BaseEventLoop):
             raise Horizon(f'next timer at {when:.3f} beyond horizon {self.horizon}')
         if when > self._vtime:
             self._vtime = when
+            self._epoch += 1
